@@ -2,13 +2,15 @@
 
 CFG = {'module': 'Dnp3.Props.C07',
  'gen': ['Link.lean'],
- 'engines': ['linkaddr', 'outstation'],
+ 'engines': ['linkaddr', 'transport', 'outstation'],
  'monitors': ['acts_only_if_addressed',
               'broadcast_never_acked',
               'link_status_answered',
               'confirmed_once_per_toggle',
               'foreign_master_silent',
-              'broadcast_never_answered'],
+              'broadcast_never_answered',
+              # the assembler must never attribute octets of one source to another (same-FrameInfo rule)
+              'delivered_fragment_is_contiguous_run'],
  'exhaustive_quick': True,
  'exhaustive_thorough': True,
  'rule': 'engine linkaddr: exhaustive link addressing table = 256 control octets x 7 destination classes x 4 '
